@@ -242,6 +242,8 @@ typedef struct EbDecHandle {
     // Thread Handles
     EbHandle *            decode_thread_handle_array;
     EbBool                start_thread_process;
+    /* svt_av1_dec_init has succeeded and svt_av1_dec_deinit has not been called since */
+    EbBool                session_initialised;
     EbHandle              thread_semaphore;
     struct DecThreadCtxt *thread_ctxt_pa;
 
